@@ -69,6 +69,22 @@ def _base_concrete():
     import nixio
     nixfake.begin()
     f = nixio.File(PATH, "w")
+    # an earlier, consistent block whose arrays carry the SAME NAMES as the ones the obligations
+    # create in "blk" but other dimension descriptors (names are unique per block only)
+    import numpy as np
+    first = f.create_block("first", "t")
+    for nm in ("ref", "ref2"):
+        a0 = first.create_data_array(nm, "t", data=[1.0, 2.0])
+        a0.append_sampled_dimension(1.0, unit="mV")
+    t0 = first.create_tag("tg", "t", [0.0])
+    t0.units = ["mV"]
+    t0.references.append(first.data_arrays["ref"])
+    p0 = first.create_data_array("pos", "t", data=np.zeros((2, 1)))
+    p0.append_set_dimension()
+    p0.append_set_dimension()
+    m0 = first.create_multi_tag("mt", "t", positions=p0)
+    m0.units = ["mV"]
+    m0.references.append(first.data_arrays["ref2"])
     blk = f.create_block("blk", "t")
     ok = blk.create_data_array("ok", "t", data=[1.0, 2.0, 3.0])
     ok.append_sampled_dimension(0.5, unit="ms")
